@@ -84,7 +84,7 @@ def _build_scopes(func, parent=None):
             sc.locals.add(n.name)
         elif isinstance(n, (ast.Import, ast.ImportFrom)):
             for al in n.names:
-                sc.locals.add((al.asname or al.name).split('.')[0])
+                sc.params.add((al.asname or al.name).split('.')[0])    # bound by an import: never renamed
         elif isinstance(n, (ast.Global, ast.Nonlocal)):
             sc.params.update(n.names)      # never rename
         stack.extend(ast.iter_child_nodes(n))
